@@ -5,7 +5,9 @@ import ChiaModel.Drv.C05
 import ChiaModel.Drv.C07
 import ChiaModel.Drv.C08
 import ChiaModel.Drv.C09
+import ChiaModel.Drv.C12
 import ChiaModel.Drv.C13
+import ChiaModel.Drv.C16
 import ChiaModel.Drv.C15
 import ChiaModel.Drv.C17
 import ChiaModel.Spec.CostTable
@@ -26,6 +28,8 @@ def dispatch (line : String) : String :=
   | "C07" :: rest => C07.handle ("C07" :: rest)
   | "C08" :: rest => C08.handle ("C08" :: rest)
   | "C09" :: rest => C09.handle ("C09" :: rest)
+  | "C12" :: rest => C12.handle ("C12" :: rest)
+  | "C16" :: rest => C16.handle ("C16" :: rest)
   | "C13" :: rest => C13.handle ("C13" :: rest)
   | "C14" :: rest => C13.handle ("C14" :: rest)
   | "C15" :: rest => C15.handle ("C15" :: rest)
